@@ -2,7 +2,7 @@
    Only ExtrOcamlBasic is used: bool, option, unit, prod, list, sumbool, sumor are mapped to
    the OCaml types; nat, N, Z, positive stay the extracted inductive datatypes. *)
 Require Import ExtrOcamlBasic.
-Require Import Base RW Return Chain Regex Route Tree Router RouteSpec UrlPath Groups Lexer Parser Grammar Inject Escape Static.
+Require Import Base RW Return Chain Regex Route Tree Router RouteSpec UrlPath Groups Lexer Parser Grammar Inject Escape Static Render.
 Extraction Language OCaml.
 Separate Extraction RW.run RW.spec_ok RW.valid_op
   Return.render Return.table Return.apply_wops Return.supported
@@ -15,4 +15,5 @@ Separate Extraction RW.run RW.spec_ok RW.valid_op
   Inject.value Inject.resolve Inject.apply_fields Inject.register
   Escape.query Escape.query_trim Escape.query_unescape_acc Escape.query_bool Escape.query_int Escape.parse_int Escape.cookie_roundtrip
   Static.static_decide Static.normalize_prefix Static.has_prefix Router.split_slash
+  Render.run_hops Render.render_ops Render.fresh Render.get_hdr Render.charset_of Render.s_ct
   RouteSpec.valid RouteSpec.spec_winner RouteSpec.all_flats RouteSpec.derivs.
